@@ -9,31 +9,90 @@ two entries.
 namespace Ecal.Drv.C04
 open Ecal.Drv Ecal.Drv.EvalCommon
 
-/-- drop line and column from `ERR <type> <line> <col>` -/
-def stripPos (out : String) : String :=
-  let f := out.splitOn " "
-  let i := if f.head? == some "V" then 1 else 0
-  if f.length ≥ i + 4 && f[i]? == some "ERR" then " ".intercalate (f.take (i + 2) ++ f.drop (i + 4))
-  else out
+/-- same tree: names, tokens (kind, text, line, column) and children -/
+partial def sameTree (a b : Ecal.Parse.Node) : Bool :=
+  a.name == b.name &&
+  (match a.tok, b.tok with
+   | some x, some y => x.id == y.id && x.val == y.val && x.line == y.line && x.col == y.col &&
+       x.allowEscapes == y.allowEscapes && x.identifier == y.identifier
+   | none, none => true
+   | _, _ => false) &&
+  a.children.length == b.children.length &&
+  (a.children.zip b.children).all fun p => match p with
+    | (some x, some y) => sameTree x y
+    | (none, none) => true
+    | _ => false
 
-def runCase (payload : String) : String :=
+/-- anchor "try/except parsing": the tree the real parser built (payload) against the tree C07's parser
+    model builds from the same source text -/
+def parserAgrees (prog : Program) : Bool :=
+  match prog.ast, Ecal.Parse.parse prog.src with
+  | some n, (some m, none) => sameTree n m
+  | none, (_, some _) => true
+  | _, _ => false
+
+/-- result of one program payload -/
+def runOne (payload : String) : String × Bool :=
+  match payload.splitOn " " with
+  | [_, "!expected"] => ("NOPARSE", false)                       -- a declared may-not-parse family
+  | [_, "!"] => ("UNEXPECTED-NOPARSE a generated program the real parser rejects", false)
+  | _ =>
+    match decodePayload payload with
+    | none => ("bad-payload", false)
+    | some prog =>
+      -- the `_wf` theorems speak about well-formed trees: every tree this driver evaluates (the program and
+      -- the embedded expressions of its literals, all built by the real parser) is checked
+      let trees := (match prog.ast with | some n => [n] | none => []) ++
+        prog.interp.filterMap fun p => match p.2 with | .ast n => some n | _ => none
+      if !(trees.all Ecal.Parse.WellFormed) then ("NOT-WELLFORMED tree from the real parser", false) else
+      if !(parserAgrees prog) then ("TREE-MISMATCH real parser vs parser model", false) else
+      let r := runProgram prog
+      let t := outcomeTextFull r
+      let t := if t.contains '?' then "UNSUP log shows a value the model does not know" else t
+      let nt : Bool := match r with
+        | .done _ st => decide (st.log.size ≥ 2)
+        | _ => false
+      (t, nt)
+
+/-- `listed id`: known_findings.txt (read by `run`) has a `known:` line for this id -/
+def runCase (listed : String → Bool) (payload : String) : String :=
   -- a case the harness did not run any more (its family was found endless on this tree)
   if payload == "skip" then "SKIP\tskip=1" else
-  match decodePayload payload with
-  | none => "bad-payload"
-  | some prog =>
-    -- the `_wf` theorems speak about well-formed trees: every tree this driver evaluates (the program and
-    -- the embedded expressions of its literals, all built by the real parser) is checked
-    let trees := (match prog.ast with | some n => [n] | none => []) ++
-      prog.interp.filterMap fun p => match p.2 with | .ast n => some n | _ => none
-    if !(trees.all Ecal.Parse.WellFormed) then "NOT-WELLFORMED tree from the real parser" else
-    let r := runProgram prog
-    let t := outcomeTextFull r
-    let t := if t.contains '?' then "UNSUP log shows a value the model does not know" else t
-    let nt : Bool := match r with
-      | .done _ st => decide (st.log.size ≥ 2)
-      | _ => false
-    stripPos t ++ (if nt then "\tnt=1" else "")
+  match payload.splitOn " @kf:" with
+  | [p1, rest] =>
+    -- the code as it is deviates from the property here in a known way: result of the program as it is,
+    -- spec= result of the program that says what the property demands
+    (match rest.splitOn "@ " with
+     | id :: p2s =>
+       let (t1, nt) := runOne p1
+       let (t2, _) := runOne ("@ ".intercalate p2s)
+       t1 ++ (if nt then "\tnt=1" else "") ++ "\tspec=" ++ t2 ++ (if listed id && t1 != t2 then "\tkf=" ++ id else "")
+     | [] => "bad-payload")
+  | _ =>
+  match payload.splitOn " @@ " with
+  | [p1, p2] =>
+    -- two readings of the property for this program: Go may agree with either
+    let (t1, nt) := runOne p1
+    let (t2, _) := runOne p2
+    t1 ++ (if nt then "\tnt=1" else "") ++ (if t2 != t1 then "\tspec=" ++ t2 else "")
+  | _ =>
+    let (t, nt) := runOne payload
+    t ++ (if nt then "\tnt=1" else "")
 
-def run (_args : List String) : IO Unit := lineLoop runCase
+/-- the ids of the known findings of C04 listed in known_findings.txt of the directory the check runs in
+    (a finding class is only reported as KNOWN-FINDING once it is listed there) -/
+def knownIds : IO (List String) := do
+  let path : System.FilePath := "known_findings.txt"
+  if !(← path.pathExists) then return []
+  let txt ← IO.FS.readFile path
+  pure ((txt.splitOn "\n").filterMap fun l =>
+    if l.startsWith "known:" && (l.splitOn "property=C04 ").length > 1 then
+      match (l.splitOn "id=") with
+      | _ :: r :: _ => (r.splitOn " ").head?
+      | _ => none
+    else none)
+
+def run (_args : List String) : IO Unit := do
+  let ids ← knownIds
+  lineLoop (runCase fun id => ids.contains id)
 end Ecal.Drv.C04
